@@ -5,6 +5,7 @@
   first (`SecOrd`).
 -/
 import Qfx.Spec.SessionTypedC06
+import Qfx.Lemmas.ValidateReasons
 namespace Qfx.Sess
 open Qfx Qfx.Validate
 
@@ -221,5 +222,34 @@ theorem rejOfV_none {v : V Unit} (h : rejOfV v = none) : v = .ok () := by
   · rfl
   · cases h
   · cases h
+
+/-! ## the reasons a validator reject can carry -/
+
+theorem rsn_runValidator (v : VCfg) (m : InMsg) : RsnOK (runValidator v m) := by
+  unfold runValidator
+  simp only []
+  split
+  · split
+    · exact rsn_rej _ _ (by decide)
+    · exact rsn_validateFieldContent _ _ _
+  · exact rsn_validate _ _ _ _
+
+/-- a validator reject never carries reason 9 (CompID problem) or 10 (SendingTime accuracy problem): `processReject` always
+    answers it with a Reject and consumes the number, never with a Logout -/
+theorem validate_reason_ok {cfg : Cfg} {m : InMsg} {reason : Nat} {t : Option Nat} {b : Bool}
+    (h : validate cfg m = some (.plain reason t b)) : reason ≠ 9 ∧ reason ≠ 10 := by
+  unfold validate at h
+  have hr := rsn_runValidator cfg.validator m
+  generalize runValidator cfg.validator m = v at h hr
+  unfold rejOfV at h
+  split at h
+  · cases h
+  · rename_i r
+    simp only [Option.some.injEq, Rej.plain.injEq] at h
+    obtain ⟨rfl, _, _⟩ := h
+    exact hr r rfl
+  · simp only [Option.some.injEq, Rej.plain.injEq] at h
+    obtain ⟨rfl, _, _⟩ := h
+    decide
 
 end Qfx.Sess
